@@ -10,6 +10,10 @@ packet and the pacer's verdict) and the extracted model must predict
   appears / the builder stopped;
 * after every call: ack_at, largest_received_packet and the ack_queue of all three spaces.
 
+The same runs are projected a second time onto coq/model/RecvAck.v (suite "recvack", exec_recvack): one op per packet with
+its decryption verdict and the effects of its payload in the order they fired, then the recording tail in the order of the
+code; compared after every call: ack_at, largest_received_packet, expected_packet_number, ack_queue of the three spaces.
+
 Three suites: "natural" (both endpoints of a pair traced from the first datagram under generated loss /
 duplication / reordering / delay, application traffic), "puppet" (after a real handshake the peer is replaced by
 a key-holding puppet that sends packets with chosen packet numbers -- gaps, reordering, duplicates, corrupted
@@ -30,9 +34,9 @@ from fractions import Fraction
 
 from vlib import core, corr
 
-GENERATORS = ["c12_consts"]
-DEPENDS = ["AckQueue", "AckQueueP", "AckQueueP2", "RangeSet", "RangeSetP", "AckFrame", "AckFrameProofs", "C12Consts",
-           "Base", "Tok", "C12"]
+GENERATORS = ["c12_consts", "c12_recv_order"]
+DEPENDS = ["AckQueue", "AckQueueP", "AckQueueP2", "AckQueueP3", "RecvAck", "RecvAckP", "RangeSet", "RangeSetP", "AckFrame",
+           "AckFrameProofs", "C12Consts", "C12RecvOrder", "Base", "Tok", "C12"]
 TRUSTED_BASE = [
     "Coq kernel; extraction (ExtrOcamlBasic only; Z kept inductive) + coq/extract/driver.ml for running coq/model/AckQueue.v",
     "harness/sim (Pair driver loop mirroring aioquic.asyncio, wire observer with its own frame parser, puppet) and "
@@ -47,12 +51,19 @@ TRUSTED_BASE = [
     "LABELLED PEEKS compared with the model: ack_at, largest_received_packet, ack_queue of the three spaces; per-packet "
     "acceptance is read from the endpoint's own qlog packet_received events",
     "modelled, not verified: connection.py / recovery.py / packet.py acknowledgement logic as Gallina functions",
+    "coq/model/RecvAck.v (suite recvack): the per-packet decryption verdict is read from the endpoint's own qlog "
+    "(packet_received / packet_dropped key_unavailable | payload_decrypt_error), the reserved-bits close from the close "
+    "reason, the ORDER of the payload's effects from the number of frames the packet had logged when each labelled "
+    "_on_ack_delivery / discard_space call fired; the statement order of receive_datagram is read by "
+    "tools/gen/c12_recv_order.py (ast; trusted to recognise the statement forms it lists, fails closed on others)",
 ]
 ASSUMPTIONS = [
     "the caller fires handle_timer / datagrams_to_send no later than get_timer() (the property's own premise)",
     "packet numbers handed over by decrypt_packet lie in [0, 2^62) (checked on every op fed to the model)",
     "delivery handlers run only for frames that were written (C08; checked on every op fed to the model)",
     "the clock is monotone; the encoded ACK delay is in [0, 2^62)",
+    "composed theorems (creach): a decrypted packet number lies in [0, 2^62) -- the ONLY premise; in particular no premise "
+    "that acknowledged ACK frames were written (an unknown handler argument has no handler in the model)",
     "ack_timely: at most MAX_ACK_RANGES ranges are queued when the ACK is written; with docs/C12-fix-2.patch (CAP_ACK_NOW, "
     "PACING_LE probed from the source) this premise is discharged by the driver discipline 'a datagrams_to_send with room "
     "after every receive_datagram' (ack_timely_cap); otherwise / without the discipline ack_timely_cap_refuted applies",
@@ -156,6 +167,9 @@ class Tracer:
     def __init__(self, pair, ep):
         self.pair, self.ep, self.name = pair, ep, ep.name
         self.tin, self.tout, self.log = [], [], []
+        self.tin2, self.tout2 = [], []      # the same run projected onto coq/model/RecvAck.v (exec_recvack)
+        self.cur2 = []
+        self.cur_frames = None
         self.hist = []
         self.bad = []
         self.hooked = None
@@ -206,6 +220,7 @@ class Tracer:
             # acknowledged from the wire (see on_receive)
             if delivery == QuicDeliveryState.ACKED:
                 me.cur.append(("del", spi(space), rest[0] if rest else None))
+                me.cur2.append(("del", spi(space), len(me.cur_frames) if me.cur_frames is not None else 0))
             return o_del(delivery, space, *rest)
 
         c._on_ack_delivery = on_ack_delivery
@@ -227,6 +242,7 @@ class Tracer:
 
         def discard_space(space):
             me.cur.append(("disc", spi(space)))
+            me.cur2.append(("disc", spi(space), len(me.cur_frames) if me.cur_frames is not None else 0))
             return o_ds(space)
 
         c._loss.discard_space = discard_space
@@ -237,6 +253,11 @@ class Tracer:
             def log_event(*, category, event, data):
                 if event == "packet_received" and "packet_number" in data.get("header", {}) and "frames" in data:
                     me.cur.append(("pkt", data["header"]["packet_type"], data["header"]["packet_number"], data["frames"]))
+                    me.cur2.append(("pkt",))
+                    me.cur_frames = data["frames"]
+                elif event == "packet_dropped" and data.get("trigger") in ("key_unavailable", "payload_decrypt_error"):
+                    me.cur2.append(("drop", 1 if data["trigger"] == "key_unavailable" else 2))
+                    me.cur_frames = None
                 return o_log(category=category, event=event, data=data)
 
             tr.log_event = log_event
@@ -270,6 +291,9 @@ class Tracer:
         for i, s in enumerate(self.ep.conn._loss.spaces):
             self.tin += [i, 7]
             self.tout += opt(s.ack_at) + [s.largest_received_packet] + dump_ranges([(r.start, r.stop - 1) for r in s.ack_queue])
+            self.tin2 += [i, 7]
+            self.tout2 += opt(s.ack_at) + [s.largest_received_packet, s.expected_packet_number] + \
+                dump_ranges([(r.start, r.stop - 1) for r in s.ack_queue])
         return out
 
     def flips(self, before, after):
@@ -277,6 +301,8 @@ class Tracer:
             self.complete = True
             self.tin += [0, 0]
             self.tout += [0]
+            self.tin2 += [0, 0]
+            self.tout2 += [0]
             self.log.append("complete")
             self.hist.append(("complete", self.pair.clock.now))
         for i in range(3):
@@ -284,6 +310,8 @@ class Tracer:
                 self.disc[i] = True
                 self.tin += [i, 3]
                 self.tout += [0]
+                self.tin2 += [i, 3]
+                self.tout2 += [0]
                 self.log.append("discard %d" % i)
                 self.hist.append(("discard", self.pair.clock.now, i))
         if after["closing"] and not self.closing:
@@ -315,6 +343,8 @@ class Tracer:
             if after["closing"] and not self.closing:
                 self.tin += [0, 4]
                 self.tout += [0]
+                self.tin2 += [0, 4]
+                self.tout2 += [0]
                 self.log.append("close")
             self.flips(before, after)
         elif name in ("handle_timer", "connect"):
@@ -330,6 +360,8 @@ class Tracer:
     def on_receive(self, now, args, kwargs):
         before = self.peek()
         self.cur = []
+        self.cur2 = []
+        self.cur_frames = None
         n_raised = len(self.ep.raised)
         _CURRENT[0] = self
         try:
@@ -353,9 +385,26 @@ class Tracer:
             else:
                 self.bad.append(("ACK delivery outside a packet", {"oracle": "premise"}))
         became_closing = after["closing"] and not before["closing"]
+        # the same call for model/RecvAck.v: per packet the decryption verdict and the effects of the payload in the order
+        # they happened (each labelled event remembers how many frames had been logged when it fired)
+        groups, lead = [], []
+        for e2 in self.cur2:
+            if e2[0] == "pkt":
+                groups.append({"drops": lead, "evs": []})
+                lead = []
+            elif e2[0] == "drop":
+                lead.append(e2[1])
+            elif groups:
+                groups[-1]["evs"].append(e2)
+        trailing_drops = lead
+        ce = self.ep.conn._close_event
+        reserved_close = became_closing and getattr(ce, "reason_phrase", "") == "Reserved bits must be zero"
         for k, (e, dels, discs) in enumerate(pkts):
             _, ptype, pn, frames = e
             sp = QLOG_SP.get(ptype)
+            for v in (groups[k]["drops"] if k < len(groups) else []):
+                self.tin2 += [2, 1, v, 0, 0, t, d, 0]
+                self.tout2 += [0]
             if sp is None:
                 continue
             # a space discarded while this very packet is processed is discarded before the packet is recorded
@@ -398,6 +447,10 @@ class Tracer:
                 self.bad.append(("packet number %r out of range" % (pn,), {"oracle": "premise"}))
             self.tin += [sp, 1, pn, int(elic), t, d, len(hs)] + hs + [int(ok)]
             self.tout += [0]
+            fx = self.effects(frames, groups[k]["evs"] if k < len(groups) else [], hs, ok)
+            rsv = int(reserved_close and k == len(pkts) - 1 and not frames)
+            self.tin2 += [sp, 1, 0, pn, rsv, t, d, len(fx) // 2] + fx
+            self.tout2 += [0]
             self.nops += 1
             self.counts["recv"] += 1
             self.counts["dels"] += len(hs)
@@ -412,9 +465,42 @@ class Tracer:
             if recorded and pn > self.lrp[sp]:
                 self.lrp[sp] = pn
                 self.lrt[sp] = now
+        for v in trailing_drops:
+            self.tin2 += [2, 1, v, 0, 0, t, d, 0]
+            self.tout2 += [0]
         self.flips(before, after)
         self.obs()
         return r
+
+    def effects(self, frames, evs, hs, ok):
+        """Effect tokens (kind, argument) of one payload for exec_recvack: 0 h FxAck | 1 e FxFrame | 3 j FxDiscard |
+        4 _ FxPeerClose | 5 _ FxError.  An event that fired when p frames had been logged belongs to the handler of frame
+        p - 1 (handlers log their frame first), or precedes the payload (p = 0: the server discards Initial before it
+        handles a Handshake payload)."""
+        out = []
+        hs = list(hs)
+        by_pos = {}
+        for ev in evs:
+            by_pos.setdefault(ev[2], []).append(ev)
+
+        def flush(pos):
+            for ev in by_pos.pop(pos, []):
+                if ev[0] == "del":
+                    if hs:
+                        out.extend([0, hs.pop(0)])
+                else:
+                    out.extend([3, ev[1]])
+        flush(0)
+        for f, fr in enumerate(frames):
+            flush(f + 1)
+            if not ok and fr.get("frame_type") == "connection_close":
+                out.extend([4, 0])
+            out.extend([1, int(fr.get("frame_type") not in NON_ELICITING)])
+        for pos in sorted(by_pos):
+            flush(pos)
+        if not ok and not any(fr.get("frame_type") == "connection_close" for fr in frames):
+            out.extend([5, 0])
+        return out
 
     def on_send(self, now, args, kwargs):
         c = self.ep.conn
@@ -473,6 +559,8 @@ class Tracer:
                 room = rooms.get(sp, BIG_ROOM)
                 self.tin += [sp, 2, t, delay, room, int(blocked and sp == 2)]
                 self.tout.append(Pending(sp, datagrams, sp in rooms))
+                self.tin2 += [sp, 2, t, delay, room, int(blocked and sp == 2)]
+                self.tout2.append(self.tout[-1])
                 if sp == 2:
                     txinfo["pending"] = self.tout[-1]
                     self.counts["paced"] += int(blocked)
@@ -496,6 +584,7 @@ class Tracer:
             if not isinstance(x, Pending):
                 out.append(x)
                 continue
+            x.tokens = None
             frame = None
             for data in x.datagrams:
                 idx = index_of.get(data)
@@ -506,17 +595,25 @@ class Tracer:
                                 frame = f.raw
                                 break
             if frame is not None:
-                out += [13, len(frame)] + list(frame)
+                x.tokens = [13, len(frame)] + list(frame)
                 self.counts["frames"] += 1
                 x.result = "frame"
             elif x.entered:
-                out += [11]
+                x.tokens = [11]
                 self.counts["stop"] += 1
                 x.result = "stop"
             else:
-                out += [10]
+                x.tokens = [10]
                 x.result = "none"
+            out += x.tokens
         self.tout = out
+        out2 = []
+        for x in self.tout2:
+            if isinstance(x, Pending):
+                out2 += x.tokens
+            else:
+                out2.append(x)
+        self.tout2 = out2
         return out
 
 
@@ -813,9 +910,12 @@ class Run:
                     frames = [F.max_data(1 << 20)]
                 elif what == "err":
                     frames = [F.ping(), F.raw(b"\x40\x21")]
+                elif what == "cclose":
+                    # the peer closes: _close_begin -> DRAINING in the middle of the payload, the frame loop goes on
+                    frames = [F.ping(), F.connection_close(0), F.ping()]
                 else:
                     frames = [F.ping()]
-                data = puppet.build_packet("1rtt", frames, pn)
+                data = puppet.build_packet("1rtt", frames, pn, reserved_bits=1 if what == "rsv" else 0)
                 if what == "bad":
                     data = data[:-1] + bytes([data[-1] ^ 0x5A])
                 inject(data)
@@ -851,7 +951,8 @@ class Run:
         for tr in self.tracers:
             exp = tr.finalize(index_of)
             bad = oracle_endpoint(self.pair, tr.ep, tr, index_of, self.end_time, self.max_ack_delay)
-            res.append({"tin": tr.tin, "tout": exp, "bad": bad, "log": tr.log, "counts": tr.counts, "name": tr.name})
+            res.append({"tin": tr.tin, "tout": exp, "tin2": tr.tin2, "tout2": tr.tout2, "bad": bad, "log": tr.log,
+                        "counts": tr.counts, "name": tr.name})
         return res
 
 
@@ -872,7 +973,7 @@ def execute(case):
         except Exception as e:
             import traceback
             _CACHE[k] = [{"tin": [], "tout": ["RUN-EXCEPTION", repr(e), traceback.format_exc()[-800:]], "bad": [],
-                          "log": [], "counts": {}, "name": "?"}]
+                          "tin2": [], "tout2": ["RUN-EXCEPTION", repr(e)], "log": [], "counts": {}, "name": "?"}]
     return _CACHE[k]
 
 
@@ -901,6 +1002,14 @@ def e_encode(sub):
 
 def e_impl(sub):
     return execute(sub["of"])[sub["ep"]]["tout"]
+
+
+def e2_encode(sub):
+    return execute(sub["of"])[sub["ep"]]["tin2"]
+
+
+def e2_impl(sub):
+    return execute(sub["of"])[sub["ep"]]["tout2"]
 
 
 def e_oracle(sub):
@@ -955,14 +1064,25 @@ def gen_puppet(rng, n):
                     off = max(0, hi + rng.choice([-6, -3, -2, -1, 0, 0, 1, 1, 1, 2, 3, 7]))
                 hi = max(hi, off)
                 what = rng.choices(["ping", "pad", "data", "bad", "err"], [60, 20, 10, 8, 2 if rng.random() < 0.2 else 0])[0]
+                if what == "err" and rng.random() < 0.6:
+                    # reserved header bits set: close(PROTOCOL_VIOLATION) right after decryption / CONNECTION_CLOSE from the peer
+                    what = rng.choice(["rsv", "rsv", "cclose"])
                 steps.append(["pkt", off, what])
             elif r < 0.60:
                 steps.append(["send"])
             elif r < 0.85:
                 steps.append(["adv", rng.choice([0, 1, 100, 500, 999, 1000, 1001, 1500, 3000, 26000, 200000])])
             elif r < 0.97:
-                hi += 1
-                steps.append(["ack", hi, rng.getrandbits(16) | (1 if rng.random() < 0.5 else 0), int(rng.random() < 0.3)])
+                mask = rng.getrandbits(16) | (1 if rng.random() < 0.5 else 0)
+                if rng.random() < 0.3:
+                    # the acknowledgement of the subject's ACK frames rides in a packet that RE-USES an old packet number (a
+                    # duplicate number or one from a gap): the receiver cannot tell it from reordering; the in-payload
+                    # pruning then covers the number of the carrier itself (RecvAck.v: carrier_survives_prunes)
+                    steps.append(["ack", max(0, hi + rng.choice([-3, -2, -1, 0, 0, 0])), mask | (0xFFFF if rng.random() < 0.5 else 0),
+                                  int(rng.random() < 0.7)])
+                else:
+                    hi += 1
+                    steps.append(["ack", hi, mask, int(rng.random() < 0.3)])
             else:
                 steps.append(["close"] if rng.random() < 0.15 else ["send"])
         c = {"kind": "puppet", "role": role, "seed": rng.randrange(1, 1 << 16), "steps": steps}
@@ -992,6 +1112,15 @@ def boundary_puppet():
                       "steps": [["pkt", 4, "ping"], ["pkt", 4, "ping"], ["pkt", 4, "pad"], ["adv", 1000], ["pkt", 4, "ping"],
                                 ["adv", 5000], ["pkt", 9, "bad"], ["adv", 5000], ["pkt", 9, "pad"], ["adv", 30000], ["pkt", 10, "err"],
                                 ["adv", 1000], ["pkt", 11, "ping"], ["adv", 30000]]})
+        # the acknowledgement of our ACK of packet 1 rides, with a PING, in a packet that re-uses number 1 (and once more
+        # after a gap); then a packet with reserved header bits
+        cases.append({"kind": "puppet", "role": role, "seed": 17,
+                      "steps": [["pkt", 1, "ping"], ["adv", 2000], ["ack", 1, 0xFFFF, 1], ["adv", 30000], ["pkt", 4, "ping"],
+                                ["adv", 2000], ["ack", 2, 0xFFFF, 1], ["send"], ["adv", 30000], ["pkt", 6, "rsv"], ["adv", 30000]]})
+        cases.append({"kind": "puppet", "role": role, "seed": 18,
+                      "steps": [["pkt", 1, "ping"], ["adv", 2000], ["ack", 1, 0xFFFF, 0], ["adv", 2000], ["pkt", 3, "ping"],
+                                ["adv", 500], ["ack", 0, 0xFFFF, 1], ["adv", 30000], ["pkt", 5, "ping"], ["pkt", 7, "cclose"],
+                                ["adv", 30000]]})
     return cases
 
 
@@ -1094,6 +1223,8 @@ def w_run(case):
             st = [0]
         except AssertionError:
             st = [1, 101]
+        except TypeError:          # a changed handler signature: reported as a disagreement, not as a harness crash
+            st = [1, 102]
         # the model's Recv couples deliveries with a packet: use a non-recorded one (ok = 0) to see the bare effect
         tin += [1, 0, 0, enc(now), 0, 1, h, 0]
         tout += st + opt(space.ack_at) + [space.largest_received_packet] + dump_ranges([(r.start, r.stop - 1) for r in space.ack_queue])
@@ -1177,7 +1308,11 @@ def suites(ctx):
                         nontrivial=e_nontrivial, opname=e_opname)
     s_w = corr.Suite(ctx, "writer", "exec_ackqueue", lambda c: w_exec(c)[0], lambda c: w_exec(c)[1], w_oracle,
                      nontrivial=lambda c, out: 13 in out)
-    return s_conn, s_w
+    # the same runs against the composed model (coq/model/RecvAck.v): decryption verdict, payload effects in order, tail;
+    # the property oracle already runs in "ackconn" on every one of these cases
+    s_ra = corr.Suite(ctx, "recvack", "exec_recvack", e2_encode, e2_impl, None, e_ops, e_rebuild,
+                      nontrivial=e_nontrivial, opname=e_opname)
+    return s_conn, s_w, s_ra
 
 
 def _batch(s, cases):
@@ -1238,6 +1373,42 @@ def run_witnesses(ctx, s_conn):
             ctx.notes.append("witness %s: reproduced=%s, expected %s on this tree" % (case.get("name", case["expect"]), reproduced, expected))
 
 
+def source_tie(ctx):
+    """The source-order obligations of coq/props/C12.v (recv_order_as_modelled, ack_handler_as_modelled), re-read here for
+    the evidence and for a readable diagnosis: which step of receive_datagram moved.  The verdict itself is Coq's (the
+    theorems are `vm_compute; reflexivity` over the generated fragment); main.py reports a broken proof only when no concrete
+    failing input was found, so when there IS one the proof violation is reported here, beside it."""
+    import importlib.util
+    import os
+    spec = importlib.util.spec_from_file_location("c12_recv_order", os.path.join(core.VERIF, "tools", "gen", "c12_recv_order.py"))
+    m = importlib.util.module_from_spec(spec)
+    spec.loader.exec_module(m)
+    names = {1: "gate", 2: "decrypt", 3: "reserved-bits close", 4: "expected_packet_number", 5: "_payload_received",
+             6: "largest_received", 7: "ack_queue.add", 8: "ack_at arm", 9: "ack_at cap"}
+    want = [(1, 10), (2, 0), (3, 11), (4, 12), (5, 13), (1, 10), (6, 21), (7, 20), (8, 22)] + \
+        ([(9, 23)] if consts()["CAP_ACK_NOW"] else [])
+    try:
+        o = m.read_order()
+    except Exception as e:
+        info = {"generator_error": repr(e), "as_modelled": False}
+    else:
+        info = {"recv_order": [names.get(a, str(a)) for a, _ in o["RECV_ORDER"]],
+                "recv_order_as_modelled": [list(x) for x in o["RECV_ORDER"]] == [list(x) for x in want],
+                "handler_prune_ok": o["HANDLER_PRUNE_OK"], "handler_args_ok": o["HANDLER_ARGS_OK"],
+                "writer_order_ok": o["WRITER_ORDER"] == [1, 2, 3, 4]}
+        info["as_modelled"] = all(info[k] for k in ("recv_order_as_modelled", "handler_prune_ok", "handler_args_ok", "writer_order_ok"))
+    if not ctx.proof_ok() and any(not v["no_input"] for v in ctx.violations):
+        broken = ctx.broken_deps()
+        if ctx.props and not ctx.props["ok"]:
+            broken.append("coq/props/C12.v no longer checks: %s" % (ctx.props.get("log") or "")[-600:])
+        ctx.violation("proof", "proof obligation or model build no longer checks (reported beside the concrete failing inputs): "
+                      "%s" % ("the source of receive_datagram / _on_ack_delivery / _write_ack_frame is not the one the C12 theorems "
+                              "are proved for" if not info["as_modelled"] else "see broken"),
+                      None, signature={"kind": "proof", "source_tie": info.get("as_modelled")},
+                      extra={"broken": broken, "source_tie": info}, no_input=True)
+    return info
+
+
 def _count(cases):
     for c in cases:
         for r in execute(c):
@@ -1248,7 +1419,7 @@ def _count(cases):
 def run(ctx):
     import sim  # noqa: F401
     consts()
-    s_conn, s_w = suites(ctx)
+    s_conn, s_w, s_ra = suites(ctx)
     rng = ctx.rng
     corpus = corr.load_corpus("C12", "ackconn")
     groups = [corpus, boundary_puppet(), gen_puppet(rng, ctx.n(700, 9000)), gen_natural(rng, ctx.n(50, 600))]
@@ -1260,33 +1431,44 @@ def run(ctx):
                 subs += split_cases(c)
             _count(part)
             s_conn.run(subs)
+            s_ra.run(subs)
             _CACHE.clear()
     run_witnesses(ctx, s_conn)
+    for case in corr.load_corpus("C12", "witness"):
+        s_ra.run(split_cases(case))
+    _CACHE.clear()
     wc = corr.load_corpus("C12", "writer") + boundary_writer() + gen_writer(rng, ctx.n(1500, 20000))
     for i in range(0, len(wc), 500):
         s_w.run(wc[i:i + 500])
         _WCACHE.clear()
+    tie = source_tie(ctx)
     return corr.merge_coverage(
-        [s_conn, s_w],
+        [s_conn, s_ra, s_w],
         "ackconn: real client/server pairs (harness/sim); puppet runs = after a real handshake a key-holding puppet sends "
         "1-RTT packets with chosen packet numbers (gaps, reordering, duplicates, corrupted copies, connection errors) and "
         "acknowledges arbitrary subsets of the subject's ACK-bearing packets, sends at arbitrary instants incl. exactly "
         "ack_at and bursts that empty the pacer, timers honoured; natural runs = both endpoints traced from the first "
         "datagram (Initial, Handshake and application spaces) under generated loss/duplication/reordering/delay with "
         "application traffic.  writer: QuicConnection._write_ack_frame / _on_ack_delivery on real packet builders with the "
-        "room around the reserved capacity, 1..70 ranges, 8-byte varints.  distinct = distinct op-token encoding, "
+        "room around the reserved capacity, 1..70 ranges, 8-byte varints.  recvack: the ackconn runs projected onto the "
+        "composed model coq/model/RecvAck.v (per packet: decryption verdict from the endpoint's qlog packet_received / "
+        "packet_dropped events, the payload's effects in the order they fired -- acknowledgements of our ACK frames, "
+        "discards, CONNECTION_CLOSE, connection error --, then the tail), compared after every call: ack_at, largest, "
+        "expected_packet_number, ack_queue of the three spaces and every ACK frame's bytes.  distinct = distinct op-token encoding, "
         "non-trivial = at least one ACK frame was written",
-        {"op_totals": dict(TOTALS), "refuted_witnesses_on_implementation": dict(WITNESS),
+        {"op_totals": dict(TOTALS), "refuted_witnesses_on_implementation": dict(WITNESS), "source_tie": tie,
          "tree_flags": {"CAP_ACK_NOW": consts()["CAP_ACK_NOW"], "PACING_LE": consts()["PACING_LE"]}})
 
 
 def replay(ctx, rep):
     import sim  # noqa: F401
-    s_conn, s_w = suites(ctx)
+    s_conn, s_w, s_ra = suites(ctx)
     case = rep["case"]
     if isinstance(case, dict) and "of" in case:
         d, e, g = s_conn.disagree(case)
+        d2, e2, g2 = s_ra.disagree(case)
         r = execute(case["of"])[case["ep"]]
-        return {"ackconn": {"disagree": d, "impl": e, "model": g, "oracle": e_oracle(case), "log": r["log"]}}
+        return {"ackconn": {"disagree": d, "impl": e, "model": g, "oracle": e_oracle(case), "log": r["log"]},
+                "recvack": {"disagree": d2, "impl": e2, "model": g2}}
     d, e, g = s_w.disagree(case)
     return {"writer": {"disagree": d, "impl": e, "model": g, "oracle": w_oracle(case)}}
